@@ -368,8 +368,11 @@ def main():
         print(json.dumps(run_events(args)))
         return
     if args.cmd == "fingerprint":
-        funcs, consts, cfg, find = EO.load(args.mir, REPO)
-        print(json.dumps(EO.wrapper_fingerprints(funcs)))
+        # events_once has no hand-modelled code any more: the endpoint wrappers are interpreted from
+        # their MIR like the protocol functions (anything the interpreter does not know aborts with
+        # "unsupported" = no verdict), so there is nothing to pin.
+        EO.load(args.mir, REPO)
+        print(json.dumps({"endpoint-wrappers": "interpreted-from-mir"}))
         return
     if args.cmd == "automata":
         funcs, consts, cfg, find = EO.load(args.mir, REPO)
